@@ -235,6 +235,20 @@ pub fn gen(tier: &str, rng: &mut Rng, out: &mut Vec<String>) {
             }
         }
     }
+    // WIF in both forms: compressed (suffix 01) and UNCOMPRESSED (no suffix), keys whose last byte is 00 / 01 / 02 / ff (an
+    // uncompressed key ending in 01 must not be mistaken for a compressed one), and a 34-byte payload with another suffix
+    for prefix in [MAIN_PRIVATE_KEY, TEST_PRIVATE_KEY] {
+        for last in [0x00u8, 0x01, 0x02, 0xff] {
+            let mut k = valid_key(rng); k[31] = last;
+            for suffix in [None, Some(1u8), Some(0u8), Some(2u8)] {
+                let mut v = vec![prefix]; v.extend_from_slice(&k); if let Some(sx) = suffix { v.push(sx); }
+                out.push(format!("c09.wif {} -", shex(&encode_base58_checksum(&v))));
+            }
+        }
+        let mut one = vec![0u8; 32]; one[31] = 1;
+        let mut v = vec![prefix]; v.extend_from_slice(&one);
+        out.push(format!("c09.wif {} -", shex(&encode_base58_checksum(&v))));
+    }
     for (ni, n) in NETS.iter().enumerate() {
         for t in 0..2 {
             let key = if t == 0 { let mut k = rng.bytes(33); k[0] = 2 + (rng.below(2) as u8); k } else { valid_key(rng) };
